@@ -5,7 +5,7 @@
  "enforce": ["b64encode"],
  "replace": [],
  "annotate": ["util/b64encode.c"],
- "defines": ["VERIF_HALLOC"],
+ "defines": ["VERIF_HALLOC", "B64_MAX=6"],
  "thorough_defines": ["B64_MAX=48"],
  "pre_unwindset": ["b64encode.0:4", "b64encode.1:5"],
  "instrument_flags": ["--nondet-static-exclude", "b64chars"],
@@ -32,13 +32,7 @@ h_b64encode(void)
 	__CPROVER_assume(len <= B64_MAX);
 	IN_BYTES(src, len, B64_MAX);
 	size_t olen = B64_SPEC_ENCLEN(len) + 1;
-#ifdef VERIF_NATIVE
 	IN_BYTES(dst, olen, B64_SPEC_ENCLEN(B64_MAX) + 1);
-#else
-	/* output space: a block of the maximal size; that nothing beyond olen bytes is written is the assigns clause
-	   (frame obligation), which is what "writes only into the output space the contract names" means */
-	IN_BYTES(dst, B64_SPEC_ENCLEN(B64_MAX) + 1, B64_SPEC_ENCLEN(B64_MAX) + 1);
-#endif
 	IN(size_t, g);
 	g_b64_g = g;
 
